@@ -11,10 +11,10 @@ Require Import Model Spec SpecFacts Refine.
 Theorem C03_exec_refines_peg :
   forall (g funs : list (list nat * expr)) (ignored : option nat)
          (t : list nat) (rx : nat -> nat -> option nat),
-    (forall r ps b, nth_error g r = Some (ps, b) -> wf g funs ignored t rx ps b) ->
-    (forall fid ps b, nth_error funs fid = Some (ps, b) -> wf g funs ignored t rx ps b) ->
+    (forall r ps b, nth_error g r = Some (ps, b) -> wf ps b) ->
+    (forall fid ps b, nth_error funs fid = Some (ps, b) -> wf ps b) ->
     (forall r, ignored = Some r -> exists es, nth_error g r = Some ([], Skip es)) ->
-    forall n e sc E s, wf g funs ignored t rx sc e -> scope_of sc E -> sub E (locals s) ->
+    forall n e sc E s, wf sc e -> scope_of sc E -> sub E (locals s) ->
       match peg g funs ignored t rx n E e (pos s), exec true g funs ignored t rx n e s with
       | Fuel, OutOfFuel => True
       | Raise, _ => True
@@ -64,7 +64,7 @@ Definition ex_g : list (list nat * expr) :=
 Definition ex_rx (id p : nat) : option nat := if Nat.eqb p 0 then Some 1 else None.
 Example C03_data_dependent_runs :
   peg ex_g [] None [50; 97; 97; 97] ex_rx 10 [] (Ref 0) 0 = Match (VList [VStr [97]; VStr [97]]) 3
-  /\ (forall r b, nth_error ex_g r = Some ([], b) -> wf ex_g [] None [50; 97; 97; 97] ex_rx [] b).
+  /\ (forall r b, nth_error ex_g r = Some ([], b) -> wf [] b).
 Proof.
   split; [vm_compute; reflexivity|].
   intros [|[|r]] b H; cbn in H; [| |destruct r; discriminate]; inversion H; subst; cbn; intuition.
